@@ -11,6 +11,7 @@ CLAUSE = ("IDL-A / PFC demultiplexers: (RF-DEP) the flags handed to the IDL call
           "block buffer is in bounds under the function's own guards and loop bounds; (RF-CORR) the IDL dummy-byte detector "
           "updates its previous-byte tracker on every path where the byte differs; (RF-PURE) no state outside the context "
           "object except the once-initialised CRC table.")
+CLAUSE = CLAUSE + (' (RF-CORR) a path of idl_a_demux_feed that switches the continuity comparison off (ci := -1) records VBI_IDL_DATA_LOST; a PFC page header keeps the block in progress only under packet > n_packets.')
 NOT_DECIDED = "that the delivered bytes equal the sent ones, in order; dummy-byte semantics beyond the tracker update; CRC arithmetic."
 
 IDL, PFC = "src/idl_demux.c", "src/pfc_demux.c"
